@@ -380,7 +380,8 @@ static int ev_enabled(const struct event *e)
 {
 	switch (e->kind) {
 	case 's': return npend + have_cur < maxq;
-	case 'n': case 'o': return !have_cur;
+	case 'n': return !have_cur && !desync;   /* noise inside the tolerance window is enumerated by the resync scenarios */
+	case 'o': return !have_cur;
 	}
 	return 1;
 }
@@ -482,6 +483,7 @@ static int do_bfs(int argc, char **argv)
 			/* enabledness from the stored summary of the state */
 			if (alpha[i].kind == 's' && sts[head].cnt >= maxq) continue;
 			if ((alpha[i].kind == 'n' || alpha[i].kind == 'o') && (sts[head].flags & 1)) continue;
+			if (alpha[i].kind == 'n' && (sts[head].flags & 2)) continue;
 			do_reset();
 			quiet = 1; bad = 0;
 			for (k = 0; k < n; k++) ev_apply(&alpha[path[k]]);
